@@ -1733,8 +1733,12 @@ def Executor_call_method(self, m, st, args, kwargs, node, ev):
             if v2 is o:
                 st.env[k2] = new
                 hit = True
+        for k2, v2 in list(st.fields.items()):
+            if v2 is o:
+                st.fields[k2] = new
+                hit = True
         if not hit:
-            raise Outside("append to a list that is not a local variable")
+            raise Outside("append to a list that is neither a local variable nor an attribute")
         return None
     raise Outside(f"method {m.name} of {type(o).__name__}")
 
